@@ -59,10 +59,13 @@ def handleApply (c : J) : Res := Id.run do
     | _ => r := fail r "C05" "last-applied record missing"
     if !(contains res (stripDesired sys upd)) then r := fail r "C05" "contains: a desired field does not have the desired value"
     let out2 := c.getD "out2"
-    if outKind out2 != "ok" then r := fail r "C05" "idempotence: second application failed"
-    else if !((out2.getD "ok").eqv res) || !(c.getBool "equal2") then
-      r := fail r "C05" "idempotence: re-applying desired changed the result"
-      if nullOverEmptiedList res orig (stripDesired sys upd) then r := { r with finding := "F-C05-1" }
+    let broken := outKind out2 != "ok" || !((out2.getD "ok").eqv res) || !(c.getBool "equal2")
+    let nno := noNullOverArr orig (stripDesired sys upd)
+    if hypJ mks res || !nno then
+      if broken then
+        r := fail r "C05" "idempotence: re-applying desired changed the result"
+        if !nno then r := { r with finding := "F-C05-1" }
+    else r := tag r "result-outside-hypothesis"
     if !(c.getBool "equal") then r := tag r "changed" else r := tag r "noop"
     if (getLastApplied orig) matches .ok none then r := tag r "never-applied"
   return r
